@@ -550,7 +550,11 @@ def _compute_sfs(
     if h is None:
         h = 0.5
     xx = dadi.Numerics.default_grid(pts)
-    phi = dadi.PhiManip.phi_1D(xx, theta0=theta, gamma=gamma, h=h, deme_ids=[root_deme])
+    # The root deme's size relative to Ne (1 unless Ne was given explicitly).
+    nu_root = nu_funcs[0][0]
+    if callable(nu_root):
+        nu_root = nu_root(0)
+    phi = dadi.PhiManip.phi_1D(xx, nu=nu_root, theta0=theta, gamma=gamma, h=h, deme_ids=[root_deme])
     
     # for each set of demographic events and integration epochs, step through
     # integration, apply events, and then reorder populations to align with demes
